@@ -4,6 +4,7 @@ import (
 	"context"
 	"errors"
 	"fmt"
+	"sort"
 
 	"github.com/go-openapi/jsonpointer"
 )
@@ -79,6 +80,37 @@ func (header *Header) Validate(ctx context.Context, opts ...ValidationOption) er
 	if schema := header.Schema; schema != nil {
 		if err := schema.Validate(ctx); err != nil {
 			return fmt.Errorf("header schema is invalid: %w", err)
+		}
+		// as for a parameter: one of example and examples, and what they show fits the schema
+		if header.Example != nil && header.Examples != nil {
+			return errors.New("header example and examples are mutually exclusive")
+		}
+		if vo := getValidationOptions(ctx); !vo.examplesValidationDisabled && schema.Value != nil {
+			if example := header.Example; example != nil {
+				if err := validateExampleValue(ctx, example, schema.Value); err != nil {
+					return fmt.Errorf("invalid example: %w", err)
+				}
+			}
+			names := make([]string, 0, len(header.Examples))
+			for name := range header.Examples {
+				names = append(names, name)
+			}
+			sort.Strings(names)
+			for _, k := range names {
+				v := header.Examples[k]
+				if v == nil || v.Value == nil {
+					continue
+				}
+				if err := v.Validate(ctx); err != nil {
+					return fmt.Errorf("%s: %w", k, err)
+				}
+				if v.Value.Value == nil && v.Value.ExternalValue != "" {
+					continue
+				}
+				if err := validateExampleValue(ctx, v.Value.Value, schema.Value); err != nil {
+					return fmt.Errorf("%s: %w", k, err)
+				}
+			}
 		}
 	}
 
